@@ -22,7 +22,40 @@ CHECKS = {
    technique="Coq proof (induction, polynomial root counting, Lagrange interpolation over an abstract field) + "
              "differential correspondence of the extracted model against the real code",
    ref="5/C09"),
-}
+ "C02": dict(
+   text="Coq theorems over the Gallina model of tbls.Recover / tbls.Verify / bls.Verify (Models/Tbls.v, discrete-log level, "
+        "wire decoder as a parameter): for every field, threshold, group size, polynomial, message and candidate list in which "
+        "valid shares of >= t distinct members occur - with any duplicates, re-encodings, entries without index, undecodable or "
+        "foreign values, in any order - recovery returns f(0)*H(m) (never Err/Panic), hence independent of subset and order, and "
+        "the value verifies under the group key. The pre-repair loop is refuted by three vm_compute witnesses (each reproduced on "
+        "the real code before the fix: commit). Tie: correspondence of the extracted model with the real tbls.Recover/Verify/Sign "
+        "on generated share multisets from a catalogue of 13 entry kinds (decode table emitted per case and cross-checked "
+        "against the real UnmarshalBinary), plus an independent judge (x*H(m) from the dealt secret, bls.Verify under the group key).",
+   note=TB + "Hypotheses: prime scalar modulus; G1/G2 elements are represented by discrete logarithms, i.e. the groups are cyclic of "
+        "prime order and the pairing is bilinear and non-degenerate (examined under C06/C10); Keccak collision freeness is not "
+        "needed for C02.",
+   technique="Coq proof (loop invariant over the candidate list + Lagrange in the exponent) + differential correspondence",
+   ref="5/C02"),
+ "C03": dict(
+   text="Same model as C02. Coq theorems: a share verifies iff it carries an index i and decodes to hm*f(i+1) (exactly this "
+        "message, exactly this member's key); if the valid entries cover fewer than t distinct in-range members recovery returns "
+        "Err whatever the padding; whenever recovery returns a signature it equals f(0)*H(m) and passes bls_verify under f(0). "
+        "Tie: correspondence + judge on below-threshold collections padded with replays, re-encodings, re-indexed, foreign and "
+        "malformed shares, and on single-bit modifications of a share, the message and the public polynomial.",
+   note=TB + "Hypotheses as for C02; 'another message' is reflected as another value of H(m) (hash collisions excluded by hypothesis).",
+   technique="Coq proof (invariant: collected entries are valid, distinct, in range) + differential correspondence",
+   ref="5/C03"),
+ "C15": dict(
+   text="Coq theorems over the Gallina model of writeTo/readFrom (Models/Framing.v) where a connection is an arbitrary list of "
+        "chunks: for every list of payloads of 1..2^20 bytes and EVERY chunking of the concatenated frames the reader returns "
+        "exactly the payloads in order and leaves exactly the following bytes; a header of 0 or > 2^20 yields Err after exactly "
+        "4 bytes; a stream ending inside header or payload yields Err. Tie: correspondence of the extracted model with the real "
+        "readFrom/writeTo over a scripted net.Conn (every split of short streams, boundary lengths 2^k-1,2^k,2^k+1 up to 2^20, "
+        "sequences, rejected headers incl. the top of the 32-bit range, every truncation point) plus an independent judge.",
+   note=TB + "Assumes Read never returns (n>0, io.EOF) together and never (0, nil) forever (true of net.TCPConn); memory use is "
+        "argued from the model's order of operations (size test before the body buffer), not measured.",
+   technique="Coq proof (induction over the chunk list) + differential correspondence over a scripted net.Conn",
+   ref="5/C15"),}
 
 NOT_YET = {
 }
